@@ -34,7 +34,7 @@ fn main() {
     out.skip = arg_val(&args, "--skip").and_then(|s| s.parse().ok()).unwrap_or(0);
     // watchdog: a single case that runs longer than the limit ends the process (exit code 86);
     // check.py then asks the model about that case and resumes after it
-    let limit_ms: u64 = arg_val(&args, "--case-timeout-ms").and_then(|s| s.parse().ok()).unwrap_or(6000);
+    let limit_ms: u64 = arg_val(&args, "--case-timeout-ms").and_then(|s| s.parse().ok()).unwrap_or(20000);
     std::thread::spawn(move || loop {
         std::thread::sleep(std::time::Duration::from_millis(200));
         let st = out::CASE_START_MS.load(std::sync::atomic::Ordering::SeqCst);
